@@ -62,16 +62,19 @@ example : generalEval (.or (.cmp ⟨['x'], .lt, .int 5⟩) (.cmp ⟨['y'], .eq, 
 general evaluator answers. -/
 theorem paren_equiv (p : Pred) (row : Row) : generalEval (.paren p) row = generalEval p row := rfl
 
-/-- The property as observed: for a sound condition the three observables of the Spec — decision,
-decision of the parenthesised twin, shortcut answer — satisfy `SpecC12.holds`. -/
+/-- The property as observed: for a sound condition the observables of the Spec — decision,
+decision of the parenthesised twin, shortcut answer, evaluation failure of the program — satisfy
+`SpecC12.holds`. -/
 theorem spec_holds (c : CondM) (hs : c.Sound) (row : Row) :
     SpecC12.holds { ev := c.evaluate row, twin := SpecC12.generalDecision (.paren c.pred) row,
-                    fast := c.fastPath row } = true := by
+                    fast := c.fastPath row,
+                    failed := decide (generalEval c.pred row = .err) } = true := by
   have h1 := evaluate_eq_general c hs row
-  simp only [SpecC12.holds, SpecC12.decisionAgrees, SpecC12.shortcutAgrees, SpecC12.generalDecision,
-    paren_equiv] at *
+  simp only [SpecC12.holds, SpecC12.decisionAgrees, SpecC12.shortcutAgrees, SpecC12.failureRejects,
+    SpecC12.generalDecision, paren_equiv] at *
   cases hf : c.fastPath row with
-  | none => simp [h1]
+  | none =>
+    cases hg : generalEval c.pred row <;> simp [h1, hg, Res.decision]
   | some b => simp [h1, fastPath_agrees hs hf, Res.decision]
 
 /-- `float64(i)` is `i` strictly inside ±2^53 … -/
